@@ -182,6 +182,22 @@ def run(W, cfg):
         W.ob_true('non-uniform sampling refused', not W.is_true(px[0] != px[1]))
     except NotImplementedError:
         W.ob_ok('non-uniform sampling refused')
+    # amplitude / OPD held as integers, unsigned bytes or booleans (a binary aperture reused as the amplitude, counts of nanometres):
+    # the rescaled plane is the one obtained from the same numbers held as floats (amplitude carries 1/s, power is conserved)
+    def typed_ok():
+        import numpy as real
+        base = (real.arange(shp[0] * shp[1]).reshape(shp) % 3 + 1)
+        m2 = mask.copy()
+        for dt in (int, real.uint8, real.int16, bool, real.float32):
+            a_t = (base > 0).astype(dt) if dt is bool else base.astype(dt)
+            o_t = (base % 2).astype(dt) if dt is bool else (base * 2 - 3).astype(dt) if dt is not real.uint8 else base.astype(dt)
+            typed = lt.Pupil(amplitude=a_t, opd=o_t, mask=m2.copy(), pixelscale=(1.0, 1.0), focal_length=10.0).rescale(float(s))
+            ref = lt.Pupil(amplitude=a_t.astype(float), opd=o_t.astype(float), mask=m2.copy(), pixelscale=(1.0, 1.0), focal_length=10.0).rescale(float(s))
+            tol = 1e-6 if dt is real.float32 else 1e-12
+            if not (real.allclose(real.asarray(typed.amplitude, dtype=float), ref.amplitude, rtol=tol, atol=tol) and real.allclose(real.asarray(typed.opd, dtype=float), ref.opd, rtol=tol, atol=tol)):
+                return False
+        return True
+    W.ob_concrete('integer / byte / boolean / float32 amplitude and OPD rescale like the same numbers held as floats', typed_ok)
     try:
         lt.Pupil(amplitude=A0, mask=mask.copy()).resample(1.0)
         W.ob_fail('undefined pixel scale refused')
